@@ -45,11 +45,12 @@ pub enum Kind {
     Dyn,
     Arr,
     P,
+    DB,
     Set,
 }
 
 impl Kind {
-    pub const ALL: [Kind; 17] = [
+    pub const ALL: [Kind; 18] = [
         Kind::D,
         Kind::R,
         Kind::L,
@@ -66,10 +67,11 @@ impl Kind {
         Kind::Dyn,
         Kind::Arr,
         Kind::P,
+        Kind::DB,
         Kind::Set,
     ];
     pub fn has_tok(self) -> bool {
-        matches!(self, Kind::D | Kind::R | Kind::L | Kind::LS | Kind::RB | Kind::SH | Kind::TSH | Kind::Dyn | Kind::P)
+        matches!(self, Kind::D | Kind::R | Kind::L | Kind::LS | Kind::RB | Kind::SH | Kind::TSH | Kind::Dyn | Kind::P | Kind::DB)
     }
     pub fn needs_trace(self) -> bool {
         !matches!(self, Kind::L | Kind::LS | Kind::Str | Kind::TStr)
@@ -100,7 +102,7 @@ impl Kind {
         match self {
             Kind::D | Kind::Dyn => crate::heap::D_STRONG,
             Kind::R => crate::heap::R_STRONG,
-            Kind::LB | Kind::OB => 1,
+            Kind::LB | Kind::OB | Kind::DB => 1,
             Kind::RB => crate::heap::RB_STRONG,
             Kind::P => 2,
             Kind::Sl | Kind::TSl | Kind::SH | Kind::TSH | Kind::Arr => 3,
@@ -112,7 +114,7 @@ impl Kind {
             Kind::D | Kind::Dyn => crate::heap::D_WEAK,
             Kind::R => crate::heap::R_WEAK,
             Kind::RB => crate::heap::RB_WEAK,
-            Kind::P => 1,
+            Kind::P | Kind::DB => 1,
             _ => 0,
         }
     }
